@@ -307,7 +307,7 @@ def _coq_list(items) -> str:
     return '[' + '; '.join(items) + ']'
 
 
-def translate() -> tuple[str, dict]:
+def _translate() -> tuple[str, dict]:
     tree = ast.parse(src_text('filesys.py'))
     mnames, cnames = _module_level(tree)
     side: dict = {'stores': {}}
@@ -400,6 +400,15 @@ def translate() -> tuple[str, dict]:
     side['functions_scanned'] = n_functions
     side['groups'] = {short: {k: list(v) for k, v in g.items()} for short, g in groups.items()}
     return '\n'.join(lines), side
+
+
+def translate() -> tuple[str, dict]:
+    try:
+        return _translate()
+    except (TranslateError, OSError, SyntaxError):
+        raise
+    except Exception as e:      # noqa: BLE001 - an AST shape the census does not expect: fail closed, never crash the check
+        raise TranslateError(f'census of stores: unexpected {type(e).__name__}: {e}') from None
 
 
 GEN = {'FsState_gen': translate}
